@@ -180,6 +180,40 @@ func main() {
 	ck.Domains = append(ck.Domains, &drv.Domain{Name: "histories", Size: nop + nop*nop + nop*nop*nop, Chunk: 64,
 		Desc: "every sequence of 1..3 operations over {Sign(m), Seal(m)} x 6 message shapes (empty, 5 B, 32 B, 300 B, 4700 B, 6 B) on ONE key object: every result equals the result of the same call on a fresh key object and verifies",
 		Run:  func(c *drv.Ctx, lo, hi int64) { histRun(c, lo, hi, hmsgs, nop, 0) }})
+	ck.Domains = append(ck.Domains, &drv.Domain{Name: "key-sequences", Size: 6 * 6 * 2, Chunk: 6,
+		Desc: "every ordered pair of 6 keys: verify/open a signature of key A through a pk VARIABLE, overwrite the same variable with key B's public key, verify/open B's signature (and the other way round with a fresh variable): both must be accepted",
+		Run: func(c *drv.Ctx, lo, hi int64) {
+			for i := lo; i < hi; i++ {
+				c.At(i)
+				a, b, reuse := int(i%6), int(i/6%6), i/36 == 0
+				ka, kb := lib(dilscope.Seed(a, c.Seed)), lib(dilscope.Seed(b, c.Seed))
+				ma, mb := []byte("key sequence message A"), []byte{}
+				sa, _ := ka.Sign(ma)
+				sb, _ := kb.Sign(mb)
+				sma, _ := ka.Seal(ma)
+				smb, _ := kb.Seal(mb)
+				pk := ka.GetPK()
+				v1 := dilithium.Verify(ma, sa, &pk)
+				o1 := dilithium.Open(sma, &pk)
+				var v2 bool
+				var o2 []byte
+				if reuse {
+					pk = kb.GetPK()
+					v2 = dilithium.Verify(mb, sb, &pk)
+					o2 = dilithium.Open(smb, &pk)
+				} else {
+					pk2 := kb.GetPK()
+					v2 = dilithium.Verify(mb, sb, &pk2)
+					o2 = dilithium.Open(smb, &pk2)
+				}
+				c.Eval(4)
+				c.Nontrivial(1)
+				if !v1 || o1 == nil || !v2 || o2 == nil {
+					c.Fail(i, "key-sequence:valid-signature-rejected", map[string]any{"key_a": a, "key_b": b, "same_variable": reuse, "verify_a": v1, "open_a_nil": o1 == nil, "verify_b": v2, "open_b_nil(empty message)": o2 == nil})
+				}
+				c.Outcome("ok")
+			}
+		}})
 	ck.Finish = func(cov map[string]any, m map[string]*drv.DomStats) {
 		all := map[string]bool{}
 		paths := map[string]bool{}
